@@ -3,7 +3,7 @@
    extracted OCaml driver and (on a sample) inside Coq by vm_compute. *)
 From Coq Require Import String.
 From TlshV Require Import Model.Machine Model.Tokens Gen.Tables Model.MLength Model.MHexStr Model.MHash
-  Model.MPearson Model.MGenerate Model.MFloat Model.MFinalize Model.MCompare Model.MStream Spec.SpecGenerate Spec.SpecDistance.
+  Model.MPearson Model.MGenerate Model.MFloat Model.MFinalize Model.MCompare Model.MStream Model.MSerde Spec.SpecGenerate Spec.SpecDistance.
 Open Scope string_scope.
 Open Scope list_scope.
 Open Scope N_scope.
@@ -25,6 +25,7 @@ Record mcfg := {
   c_body : N;
   c_sretry : bool;         (* read loop retries on ErrorKind::Interrupted *)
   c_sinv : bool;           (* invariant!(len <= buffer.len()) present in the read loop *)
+  c_serde_unwrap : bool;   (* serde bytes visitor does try_from(v).unwrap() (code before the C16 fix) *)
 }.
 
 Definition ccfg_of (c : mcfg) : ccfg :=
@@ -42,7 +43,7 @@ Definition default_cfg : mcfg :=
   {| c_strict := false; c_unsafe := false; c_dbg := true; c_len := LenClz;
      c_dec := DecFull; c_enc := EncFull; c_simd_parse := true; c_simd_convert := true;
      c_low_mem := false; c_double := true; c_len_table := true; c_q := QTableDouble; c_body := 4;
-     c_sretry := true; c_sinv := false |}.
+     c_sretry := true; c_sinv := false; c_serde_unwrap := false |}.
 
 Definition cfg_of_flags (fl : list N) : mcfg :=
   let has k := existsb (N.eqb k) fl in
@@ -53,7 +54,7 @@ Definition cfg_of_flags (fl : list N) : mcfg :=
      c_simd_parse := has 15; c_simd_convert := has 16; c_low_mem := has 17; c_double := has 18;
      c_len_table := has 19; c_q := if has 21 then QTableDouble else if has 20 then QTable else QNaive;
      c_body := if has 34 then 4 else if has 33 then 3 else if has 32 then 2 else if has 31 then 1 else 0;
-     c_sretry := negb (has 50); c_sinv := has 51 |}.
+     c_sretry := negb (has 50); c_sinv := has 51; c_serde_unwrap := has 52 |}.
 
 Definition show_perr (e : parse_error) : tok :=
   match e with
@@ -730,6 +731,47 @@ Definition dispatch_easy (c : mcfg) (op : tok) (args : list tok) : option (list 
     end
   else None.
 
+(* ---- serde (mock serializer / deserializer events) ---- *)
+Definition sval_of (kind : tok) (payload : list N) : option sval :=
+  if is_sym kind "str" || is_sym kind "string" || is_sym kind "char" then Some (VStr payload)
+  else if is_sym kind "bytes" || is_sym kind "bytebuf" then Some (VBytes payload)
+  else if is_sym kind "u8" || is_sym kind "u64" || is_sym kind "i64" || is_sym kind "f64" || is_sym kind "bool"
+          || is_sym kind "unit" || is_sym kind "none" then Some (VOther 0)
+  else None.
+
+Definition dispatch_serde (c : mcfg) (op : tok) (args : list tok) : option (list tok) :=
+  let hc := hcfg_of c in
+  if is_sym op "serde_mock_de" then
+    match args with
+    | [vt; TN hr; kind; TB payload] =>
+        match variant_of vt, sval_of kind payload with
+        | Some v, Some ev =>
+            Some (out_or (de (c_serde_unwrap c) hc v (negb (hr =? 0)) ev) (fun h => [S "ok"; TB (hash_bytes h)])
+                    (fun e => match e with
+                              | DeCustom pe => [S "err"; S "custom"; show_perr pe]
+                              | DeInvalidLength k => [S "err"; S "invalid_length"; TN k]
+                              | DeInvalidType => [S "err"; S "invalid_type"]
+                              end))
+        | _, _ => Some bad
+        end
+    | _ => Some bad
+    end
+  else if is_sym op "serde_mock_ser" then
+    match args with
+    | [vt; TN hr; TB bin] =>
+        match variant_of vt with
+        | Some v => Some (with_hash c v bin (fun h =>
+                      out_or (ser hc v (negb (hr =? 0)) h)
+                             (fun ev => match ev with
+                                        | VStr t => [S "str"; TB t] | VBytes t => [S "bytes"; TB t] | VOther _ => bad
+                                        end)
+                             (fun _ => bad)))
+        | None => Some bad
+        end
+    | _ => Some bad
+    end
+  else None.
+
 Definition dispatch (c : mcfg) (line : list tok) : list tok :=
   match line with
   | [] => bad
@@ -748,8 +790,11 @@ Definition dispatch (c : mcfg) (line : list tok) : list tok :=
       | None =>
       match dispatch_easy c op args with
       | Some r => r
+      | None =>
+      match dispatch_serde c op args with
+      | Some r => r
       | None => [S "MODEL-UNKNOWN-OP"]
-      end end end end end
+      end end end end end end
   end.
 
 Definition dispatch_flags (fl : list N) (line : list tok) : list tok :=
